@@ -2182,6 +2182,8 @@ struct Value {
 
             case ValueType::String: {
                 string_.Reset();
+                // A string is smaller than the union, see below.
+                Memory::Initialize(&array_);
                 break;
             }
 
